@@ -406,8 +406,39 @@ def rule_l(R, ctx, rid="C12.l"):
          "membership is tested on %s" % sorted(seen))
 
 
+def rule_m(R, ctx, rid="C12.m"):
+    from . import shared
+    Y = ctx.yrs
+    shared.api_delegations(R, ctx, rid, shared.UNDO_DELEGATIONS,
+                           "R-PROV the manager's thin methods: undo_blocking pops with undoing = true and redo_blocking with false; can_undo / "
+                           "can_redo look at the undo / redo stack respectively; include_origin inserts and exclude_origin removes the "
+                           "caller's origin in tracked_origins; clear_all clears both stacks — canonical values of the arguments")
+    for meth, sib in (("undo", True), ("redo", False)):
+        for f in Y.find(r"^yrs::undo::UndoManager::%s::\{closure#0\}$" % meth) or Y.find(r"^yrs::undo::UndoManager::%s$" % meth):
+            v = FnView(f)
+            css = f.calls_to("re:UndoManager::pop$")
+            ok = len(css) == 1 and simp_deep(v.arg(css[0], 1)) == ("const", 1 if sib else 0, None) or \
+                (len(css) == 1 and simp_deep(v.arg(css[0], 1))[:2] == ("const", 1 if sib else 0))
+            R.ob(rid, f, "pop-direction", ok, "%s pops with undoing = %s: %s" % (meth, sib, [sshow(v.arg(c, 1)) for c in css]))
+    # pop / pop_blocking: the flags and the stack follow the parameter
+    for name in ("pop_blocking",):
+        f = Y.fn(UM + "::" + name)
+        v = FnView(f)
+        got = {}
+        for i, j, st in f.stmts():
+            d = st["dst"]
+            if isinstance(d, dict) and d.get("p") and isinstance(d["p"][-1], str) and d["p"][-1].endswith(("Inner.undoing", "Inner.redoing")):
+                got.setdefault(d["p"][-1].rsplit(".", 1)[-1], []).append(simp_deep(v.terms.rvalue(st["rv"], 8)))
+        first_u = got.get("undoing", [None])[0]
+        first_r = got.get("redoing", [None])[0]
+        oku = first_u is not None and first_u[0] == "param" and f.local_name(first_u[1]) == "undoing"
+        okr = first_r is not None and first_r[0] in ("un", "not") and any(x[0] == "param" and f.local_name(x[1]) == "undoing" for x in walk(first_r) if isinstance(x, tuple) and x)
+        R.ob(rid, f, "direction-flags", oku and okr, "undoing := %s; redoing := %s" % (sshow(first_u) if first_u else None, sshow(first_r) if first_r else None))
+
+
 def check(ctx, R):
     R.run("C12.l", rule_l, ctx)
+    R.run("C12.m", rule_m, ctx)
     R.run("C12.a", rule_a, ctx)
     R.run("C12.b", rule_b, ctx)
     R.run("C12.c", rule_c, ctx)
